@@ -10,8 +10,7 @@
 // (at() of every variable incl. the content of every region, is_null_ref, get_allocation_sites,
 // get_tags, and -- through `#define private public` on region_domain.hpp only -- the
 // reference count / init flag / site set of every region); answers are joined with " ; ".
-// --mode=itv (default, the modelled instance) | boolitv | zones | signconst | fixed (interval
-// base with the fixed-naming ghost manager).
+// --mode=itv (default, the modelled instance) | boolitv | zones | signconst  (base domains).
 #include "crab_lang.hpp"
 #include "hcommon.hpp"
 #include <crab/domains/abstract_domain_params.hpp>
@@ -57,20 +56,12 @@ template <class BaseAbsDom> struct VarParams {
   using base_abstract_domain_t = BaseAbsDom;
   using base_varname_t = typename BaseAbsDom::varname_t;
 };
-template <class BaseAbsDom> struct FixedParams {
-  using number_t = z_number;
-  using varname_t = crab::cfg_impl::varname_t;
-  using varname_allocator_t = crab::cfg_impl::variable_factory_t;
-  using base_abstract_domain_t = BaseAbsDom;
-  using base_varname_t = typename BaseAbsDom::varname_t;
-};
 typedef typename var_allocator::varname_t bvarname_t;
 typedef region_domain<VarParams<interval_domain<z_number, bvarname_t>>> rgn_itv_t;
 typedef region_domain<VarParams<flat_boolean_numerical_domain<interval_domain<z_number, bvarname_t>>>> rgn_boolitv_t;
 typedef split_dbm_domain<z_number, bvarname_t, DBM_impl::DefaultParams<z_number, DBM_impl::GraphRep::adapt_ss>> bzones_t;
 typedef region_domain<VarParams<bzones_t>> rgn_zones_t;
 typedef region_domain<VarParams<sign_constant_domain<z_number, bvarname_t>>> rgn_signconst_t;
-typedef region_domain<FixedParams<interval_domain<z_number, varname_t>>> rgn_fixed_t;
 
 struct ctx {
   variable_factory_t vfac;
@@ -386,7 +377,6 @@ static std::string eval(const std::vector<std::string> &t) {
   case 1: return rg::run_history<rg::rgn_boolitv_t>(t);
   case 2: return rg::run_history<rg::rgn_zones_t>(t);
   case 3: return rg::run_history<rg::rgn_signconst_t>(t);
-  case 4: return rg::run_history<rg::rgn_fixed_t>(t);
   default: return rg::run_history<rg::rgn_itv_t>(t);
   }
 }
@@ -394,8 +384,7 @@ int main(int argc, char **argv) {
   crab::CrabEnableWarningMsg(false);
   if (argc > 1 && std::strncmp(argv[1], "--mode=", 7) == 0) {
     const char *m = argv[1] + 7;
-    mode = !std::strcmp(m, "boolitv") ? 1 : !std::strcmp(m, "zones") ? 2 : !std::strcmp(m, "signconst") ? 3 :
-           !std::strcmp(m, "fixed") ? 4 : 0;
+    mode = !std::strcmp(m, "boolitv") ? 1 : !std::strcmp(m, "zones") ? 2 : !std::strcmp(m, "signconst") ? 3 : 0;
     return vh::run_cases(argc - 1, argv + 1, eval);
   }
   return vh::run_cases(argc, argv, eval);
